@@ -153,6 +153,41 @@ def run(ctx):
     c01.g6(ctx, R)
     c03.g7(ctx, R)
     c03.g9(ctx, R)
+    # ---- G10 ----------------------------------------------------------------------
+    ctx.rule("G10", "a command is closed by `;` only when every required argument of its definition was given")
+    from sa.util import fact_call
+    cmdf = R.command
+    cfgc = ctx.cfg(cmdf)
+    ups = [c for c in walk_no_nested(cmdf.node) if isinstance(c, ast.Call) and call_name(c) == R.up.name]
+
+    def semicolon(fc):
+        e, pol = fact_atom(fc)
+        cp = cmp_parts(e)
+        return bool(cp and cp[1] == "Eq" and pol is True and const_value(ctx.program, cmdf, cp[2]) == "semicolon")
+    closing = [c for c in ups if all(cfgc.guarded(x, semicolon) for x in cfgc.node_containing(c))]
+    if not closing:
+        raise AnalysisError("G10", "the `;` branch of the command state function was not found")
+
+    def complete(fc):
+        c_, pol = fact_call(fc)
+        return c_ is not None and call_name(c_) == "iscomplete" and pol is True
+    # either the branch tests iscomplete() itself, or it relies on the completion check, which then must refuse an incomplete command
+    direct = all(all(cfgc.guarded(x, complete) for x in cfgc.node_containing(c)) for c in closing)
+    via = False
+    if not direct:
+        comp = R.completion
+        cfgk = ctx.cfg(comp)
+        trues = [r for r in walk_no_nested(comp.node) if isinstance(r, ast.Return) and const_value(ctx.program, comp, r.value) is True]
+        via = bool(trues) and all(all(cfgk.guarded(x, complete) for x in cfgk.nodes_for(r)) for r in trues) and all(
+            all(cfgc.guarded(x, lambda fc: (fact_call(fc)[0] is not None and call_name(fact_call(fc)[0]) == comp.name and fact_call(fc)[1] is True))
+                for x in cfgc.node_containing(c)) for c in closing)
+    if direct or via:
+        ctx.holds("G10", "%s: `;` closes a command only after iscomplete()" % cmdf.qualname)
+    else:
+        # identified by the function's role (its private name may change)
+        ctx.violation("G10", "Parser.<command state function>", "semicolon-closes-incomplete", "`;` closes the current command without any test that its required arguments "
+                      "were all given (the completion check answers True for an incomplete command)", node=closing[0], file=cmdf.file,
+                      witness='a registered command with two required strings is accepted as `mycmd "only-one";` (the suite pins `reject;`)')
     # "its required extension": the extension gates (E2-E7 of C07) decide whether a registered command's require is honoured
     from .c07 import gates
     gates(ctx, R)
